@@ -38,6 +38,12 @@ def main():
     sh(["git", "-C", "/repo", "worktree", "add", "-q", "--detach", wt, "HEAD"])
     try:
         env = dict(os.environ, PYTHONPATH="%s/src:%s" % (wt, wt), HOME="/tmp/seedhome", XDG_CACHE_HOME="/tmp/seedhome/x")
+        # run a copy of the demo from the same place inside the scratch worktree (some demos find the checkout
+        # relative to their own path)
+        dcopy = os.path.join(wt, "SEED", os.path.basename(os.path.normpath(seeddir)))
+        os.makedirs(dcopy, exist_ok=True)
+        shutil.copy(demo, os.path.join(dcopy, "demo.py"))
+        demo = os.path.join(dcopy, "demo.py")
         r0 = sh(["/venv/bin/python", demo], env=env, cwd=wt, timeout=900)
         ap = sh(["git", "-C", wt, "apply", patch])
         if ap.returncode != 0:
